@@ -96,7 +96,7 @@ def cfg_term(s, htbl):
                 if (n, k) in htbl:
                     ent.append(f"({n}, {k}, {htbl[(n, k)]})")
     ctbl = "; ".join(f"({k}, {v})" for k, v in sorted(s.get("hash", {}).items()))
-    mk = "mk_config_f8" if os.environ.get("RV_F8_FIXED") else "mk_config"   # candidate F8 fix (docs/notes/F8.patch)
+    mk = "mk_config"
     return (f"({mk} {ROUTERS[s['router']]} {'true' if s['queue'] == 'p' else 'false'} "
             f"[{'; '.join(ent)}] [{ctbl}])")
 
